@@ -41,7 +41,7 @@ ASSUMPTIONS = ["scipy.linalg.expm is modelled by NormedSpace.exp (its output is 
 RULE = ("seeded structured generation: complex states (dyadic, normalised floats, basis states, eigenvectors, phase-rotated copies) x Hermitian and "
         "non-Hermitian Pauli operators on 1..4 (thorough: ..6) qubits; parameter vectors (zero, sparse, dense, dyadic, float, complex, symmetric) for "
         "'s','d','sd' on 1..4 sites plus malformed settings/lengths; a few complete optimiser runs; distinct = distinct case dicts")
-TECHNIQUE = "Lean 4 theorems about a model of the code + correspondence tie checked on every run"
+TECHNIQUE = "Lean 4 theorems about a model of the code + translator (shape tables) and correspondence tie checked on every run"
 
 _ctx = {}
 TOL = 1e-9
@@ -137,7 +137,7 @@ def impl_expect(case):
         val = np.asarray(val)
         if val.shape != ():
             return {"raised": None, "shape": list(val.shape)}
-        out = {"raised": None, "value": complex(val)}
+        out = {"raised": None, "value": complex(val), "flag": bool(op.is_hermitian())}
     except Exception as e:
         return {"raised": kind_of(e)}
     if case.get("phase") is not None:
@@ -273,6 +273,10 @@ def compare(case, o, m):
             return f"model: two-step product {m['value']} != double sum {m['spec']}"
         if m["herm"] and m["value"][1] not in ("0/1", "0"):
             return f"model: Hermitian operator but imaginary part {m['value'][1]}"
+        if o["flag"] != m["flag"]:
+            return f"PauliOperator.is_hermitian(): impl {o['flag']} != model {m['flag']}"
+        if m["flag"] and not m["herm"]:
+            return "model: is_hermitian flag set but the assembled matrix is not Hermitian"
         if not (math.isfinite(o["value"].real) and math.isfinite(o["value"].imag)):
             return f"impl returned non-finite {o['value']}"
         if not close(o["value"], mv):
@@ -362,6 +366,8 @@ def oracle(case, o):
         nrm2 = float(np.vdot(psi, psi).real)
         if herm and abs(v.imag) > TOL * (1 + abs(ref)):
             bad.append(("C20:expect:not-real-for-hermitian", f"Hermitian operator, energy {v} has imaginary part {v.imag}"))
+        if o.get("flag") and abs(v.imag) > TOL * (1 + abs(ref)):
+            bad.append(("C20:expect:not-real-for-is_hermitian", f"pauli_op.is_hermitian() is True, energy {v} has imaginary part {v.imag}"))
         if herm and nrm2 > 0:
             ev = np.linalg.eigvalsh(M)
             r = v.real / nrm2
